@@ -93,6 +93,12 @@ pub fn check_all(h: &Hist, ledger: &Ledger, obs: &mut Obs) -> Vec<Viol> {
         }
     }
 
+    if !viol.is_empty() {
+        // a result that is broken in itself makes the rest of the bookkeeping (which value went where)
+        // unreliable: report it alone rather than a cascade of secondary findings
+        return viol;
+    }
+
     // ---- C01 conservation + C05 ledger --------------------------------------------------
     let tk = takers(ev, &mut viol, h.unique);
     let mut sent: HashMap<Tag, usize> = HashMap::new();
